@@ -1,6 +1,7 @@
 package main
 
 import (
+	"encoding/hex"
 	"errors"
 	"fmt"
 	"io/fs"
@@ -104,6 +105,7 @@ type c05Case struct {
 	packager string
 	noGlob   bool
 	mtime    time.Time
+	files    []extraFile // written below the source tree before the case and removed after it
 }
 
 func cloneContents(in []*files.Content) files.Contents {
@@ -256,6 +258,20 @@ type c05Stats struct {
 }
 
 func runC05Case(w *caseWriter, cs c05Case, st *c05Stats) {
+	if len(cs.files) > 0 {
+		writeExtraFiles(cs.files)
+		defer func() {
+			removeExtraFiles(cs.files)
+			// and the directories made for them, deepest first, as far as they are empty
+			for _, f := range cs.files {
+				for d := filepath.Dir(f.Path); d != "." && d != "/" && d != "src"; d = filepath.Dir(d) {
+					if os.Remove(d) != nil {
+						break
+					}
+				}
+			}
+		}()
+	}
 	writeDesc(cs.id, descOfC05(cs))
 	w.line("case %s", cs.id)
 	w.line("umask %d", uint32(cs.umask))
@@ -471,6 +487,33 @@ func genC05(tier string, seed int64, w *caseWriter, st *c05Stats) {
 
 var spellAlphabet = []byte{'/', '.', 'a'}
 
+// the same entries planned again after the source tree changed: a plan is a function of the content list and the
+// file system as it is NOW (an expansion remembered from an earlier call shows here)
+func genC05ChangingTree(w *caseWriter, st *c05Stats) {
+	fixedMT := time.Unix(1700000000, 0).UTC()
+	f := func(p, body string) extraFile {
+		return extraFile{Path: p, Hex: hex.EncodeToString([]byte(body)), Mode: 0o644, MTime: 1650000000}
+	}
+	entries := func() []*files.Content {
+		return []*files.Content{
+			{Source: "src/memo/*.conf", Destination: "/etc/memo/", Type: files.TypeConfig},
+			{Source: "src/memo/**/*.txt", Destination: "/usr/share/memo"},
+			{Source: "src/memo", Destination: "/opt/memo", Type: files.TypeTree},
+		}
+	}
+	states := [][]extraFile{
+		{f("src/memo/a.conf", "a"), f("src/memo/deep/one/x.txt", "x")},
+		{f("src/memo/a.conf", "a"), f("src/memo/b.conf", "b"), f("src/memo/deep/one/x.txt", "x"), f("src/memo/deep/two/y.txt", "y")},
+		{f("src/memo/b.conf", "b"), f("src/memo/deep/two/y.txt", "y")},
+		{f("src/memo/a.conf", "a"), f("src/memo/deep/one/x.txt", "x")},
+	}
+	for i, fs := range states {
+		for _, pk := range []string{"deb", "rpm"} {
+			runC05Case(w, c05Case{id: fmt.Sprintf("changing-tree-%d-%s", i, pk), entries: entries(), umask: 0o022, packager: pk, mtime: fixedMT, files: fs}, st)
+		}
+	}
+}
+
 func randSpelling(rng *rand.Rand, n int) string {
 	b := make([]byte, n)
 	for i := range b {
@@ -524,6 +567,7 @@ func cmdC05(tier string, seed int64, out string, statsOut string, replay string)
 	} else {
 		runCorpus("C05", w, st)
 		genPathCases(tier, w, st)
+		genC05ChangingTree(w, st)
 		genC05(tier, seed, w, st)
 	}
 	w.close()
